@@ -46,10 +46,22 @@ PROPS = {
         "missing": "refinement theorems for get_by_name, get_by_keypath, object_keys, object_each, array_values, type_of, as_*/to_*, exists_*_keys, traverse_check_string: these are decided by correspondence (byte-level model vs Rust) plus the spec oracle (tree answer vs Rust) only",
         "assumptions": ["documents are canonical encodings of good values"],
     },
+    "C06": {
+        "panic_is_violation": True,
+        "proved": "both builders (ArrayBuilder/ObjectBuilder build_into with nested builders) append exactly the layout function of their entries for every prior buffer, unconditionally; an array built from raw entries of good values is its canonical encoding; delete_by_index (every i32 index) and concat of two arrays refine the tree functions into any prior buffer",
+        "missing": "refinement theorems for the object editors, delete_by_name, delete_by_keypath, array_insert, object_insert/delete/pick, strip_nulls, build_array/build_object and the non-array concat cases: decided by correspondence + spec oracle only",
+        "assumptions": ["documents are canonical encodings of good values"],
+    },
+    "C13": {
+        "panic_is_violation": True,
+        "proved": "list-level laws of the spec functions: distinct keeps first occurrences in order, never repeats, is idempotent; intersection and except are one decision sequence and its complement (partition of the first list); overlap iff intersection non-empty; byte-level array_distinct on an array document refines Spec.distinct and writes a canonical array into any prior buffer",
+        "missing": "byte-level refinement of intersection/except/overlap and the count formula min(count xs, count ys): correspondence + spec oracle only",
+        "assumptions": ["documents are canonical encodings of good values"],
+    },
     "C17": {
         "panic_is_violation": True,
-        "proved": "Value::write_to_vec: for every prior buffer content the Encoder model appends exactly encodeSpec v and leaves the prefix untouched",
-        "missing": "builders, editors, selectors, comparable key",
+        "proved": "frame theorems, for every prior buffer content: Value::write_to_vec (Encoder with reserve_jentries/replace_jentry at absolute indices) appends exactly encodeSpec v; ArrayBuilder/ObjectBuilder build_into with nested builders append a prefix-independent image; delete_by_index, concat of arrays and array_distinct inherit it",
+        "missing": "frame theorems for the remaining editors, build_array/build_object, the selector writers and convert_to_comparable (their models append by construction; tied by correspondence with non-empty prefixes)",
         "assumptions": [],
     },
 }
